@@ -485,11 +485,18 @@ class MatrixSum(Expression):
     def jacobian_row(self, variables: list[Variable]) -> list[Expression] | None:
         """Return Jacobian row in O(n).
 
-        For MatrixSum(X), gradient w.r.t. X[i,j] is 1 for all elements in X,
-        0 for all other variables.
+        For MatrixSum(X), gradient w.r.t. a variable is the number of positions
+        of X it occupies (1 for ordinary matrices, 2 for the off-diagonal
+        variables of a symmetric matrix), 0 for all other variables.
+        Sums of matrix expressions fall back to symbolic differentiation.
         """
-        my_vars = self.matrix.get_variables()
-        return [Constant(1.0) if var in my_vars else Constant(0.0) for var in variables]
+        if not isinstance(self.matrix, MatrixVariable):
+            return None
+        counts: dict[str, float] = {}
+        for row in self.matrix._variables:
+            for v in row:
+                counts[v.name] = counts.get(v.name, 0.0) + 1.0
+        return [Constant(counts.get(var.name, 0.0)) for var in variables]
 
     def __repr__(self) -> str:
         if isinstance(self.matrix, MatrixVariable):
